@@ -507,6 +507,25 @@ def run(chk, only=None):
                     out, x, Q2, xmin = p.value
                     facts = ctx.facts() + p.pc
                     outside = z3.Or(x.t <= 0, x.t > 1, Q2.t <= 0, x.t < xmin.t)
+                    # the same request on plain floats at this path's own point (real code, no proxies): proxies are not NumPy scalars,
+                    # so an internal error that only a float64 triggers would otherwise stay invisible
+                    chk.obligations += 1
+                    chk.evaluations += 1
+                    prev_ctx, real._CUR[0] = real._CUR[0], None
+                    try:
+                        fout = kin_case(vals(None), case)[0]
+                    except Exception as e_:  # noqa
+                        fout = e_
+                    finally:
+                        real._CUR[0] = prev_ctx
+                    if not isinstance(fout, str) and not is_clear_rejection(fout):
+                        chk.report(f"kin:{kind}:{tmc}:{type(fout).__name__}", f"{cname}: internal {type(fout).__name__}: {str(fout)[:100]} on floats at the "
+                                   f"point of path {i}", "kin", dict(case=case, values=vals(None)))
+                    else:
+                        chk.discharged += 1
+                        fkind = "ok" if fout == "ok" else "ValueError"
+                        skind = "ok" if out == "ok" else "ValueError"
+                        chk.tv_note(cname, fkind == skind, f"path {i}: symbolic outcome {skind}, float run of the real code at its point {fkind} ({vals(None)})")
                     if not isinstance(out, str):
                         chk.obligations += 1
                         if is_clear_rejection(out):
